@@ -13,9 +13,10 @@ Comparisons: mutation->edge maps, mutation counts, block spans, block counts: ex
 (integers / the same single subtraction). Spans from count_mutations: the code accumulates
 (L - left) - (L - right) (times the sample count, once per event below the edge), not
 right - left, so a tolerance of SPAN_TOL * L * max(1, #flagged) absolute is used. Calibration on
-the unchanged tree (seeds 1..5 quick + one thorough run, 3e4 inputs): worst observed
-|err| / (L * max(1, #flagged)) = 2.3e-16; SPAN_TOL = 1e-13 leaves a margin > 100x and is 10 orders of
-magnitude below the effect of attributing a single tree span to the wrong edge.
+the unchanged tree (seeds 1..5 quick, 9e3 inputs, default sample set; explicit masks measured with
+fixes_proposed/C24_mask_assert.patch applied): worst observed |err| / (L * max(1, #flagged)) < 6.5e-16
+(evidence field: sum over shards of the per-shard maxima); SPAN_TOL = 1e-13 leaves a margin > 100x and is
+many orders of magnitude below the effect of attributing a single tree span to the wrong edge.
 """
 
 import numpy as np
@@ -51,7 +52,7 @@ SPAN_TOL = 1e-13
 
 def budget(tier):
     if tier == "quick":
-        return dict(examples=450, shards=4)
+        return dict(examples=350, shards=4)
     return dict(examples=2500, shards=16)
 
 
